@@ -340,6 +340,8 @@ func c16(tier string) int {
 	// Fault leg: reads under storage faults - never wrong bytes, never 'not
 	// found' for a log that holds a checkpoint.
 	runFaults(run, "C16", tier, false)
+	// Concurrent leg: reads overlapping an update on a freshly restarted witness.
+	c05Concurrent(run, "C16", tier)
 	for _, k := range []string{"stored->200", "empty->404"} {
 		if run.HistGet("reads", k) == 0 {
 			run.Vacuous("read class %s never observed", k)
